@@ -1373,6 +1373,16 @@ func runC02(args []string) error {
 				Kind  string       `json:"kind"`
 				Input c02BackendIn `json:"input"`
 			}
+			var lr struct {
+				Kind  string         `json:"kind"`
+				Input c02LongResetIn `json:"input"`
+			}
+			if json.Unmarshal(c, &lr) == nil && lr.Kind == "longreset" {
+				if err := c02RunLongReset(co, lr.Input); err != nil {
+					return err
+				}
+				continue
+			}
 			if json.Unmarshal(c, &kk) == nil && kk.Kind == "backend" {
 				if err := c02RunBackend(co, kk.Input); err != nil {
 					return err
@@ -1468,6 +1478,12 @@ func runC02(args []string) error {
 			if err := c02RunCase(co, "inblock", c02GenInBlock(r, i)); err != nil {
 				return fmt.Errorf("flush inside a block addition %d: %w", i, err)
 			}
+		}
+	}
+	// Reset at the header-hash page boundaries of a long chain
+	if want("longreset") {
+		if err := c02RunLongReset(co, c02GenLongReset(r, cf.tier == "thorough")); err != nil {
+			return fmt.Errorf("reset of a long chain: %w", err)
 		}
 	}
 	// a flush that FAILS (1-3 times, 0-3 blocks stored while it hangs), then flushes that succeed: every durable prefix
